@@ -7,6 +7,6 @@ from .c01 import r1
 
 def run(ctx):
     r1(ctx)
-    lc.run_family(ctx, ("invalid", "rw", "long", "bits"), 3,
+    lc.run_family(ctx, ("invalid", "rw", "long", "bits", "inject"), 3,
                   "request lists mixing valid and invalid requests (unknown tag/member, index/count out of range, unencodable or short "
                   "values, misaligned BOOL writes) at every position, lists spanning several multi-service packets, duplicates")
